@@ -524,12 +524,27 @@ func (fc *FnCtx) unbox(v Term, to types.Type) Term {
 		fn := "unbox_int_" + strconv.Itoa(fc.tagID(to))
 		fc.declareFun("box_int_"+strconv.Itoa(fc.tagID(to)), []string{SInt}, SInt)
 		fc.declareFun(fn, []string{SInt}, SInt)
+		fc.boxSurjective("box_int_"+strconv.Itoa(fc.tagID(to)), fn, fc.tagID(to))
 		return Term{S: fmt.Sprintf("(%s %s)", fn, v.S), Sort: SInt, T: to}
 	}
 	fn := "unbox_" + smtIdent(so) + "_" + strconv.Itoa(fc.tagID(to))
 	fc.declareFun("box_"+smtIdent(so)+"_"+strconv.Itoa(fc.tagID(to)), []string{so}, SInt)
 	fc.declareFun(fn, []string{SInt}, so)
+	fc.boxSurjective("box_"+smtIdent(so)+"_"+strconv.Itoa(fc.tagID(to)), fn, fc.tagID(to))
 	return Term{S: fmt.Sprintf("(%s %s)", fn, v.S), Sort: so, T: to}
+}
+
+// boxSurjective: an interface value whose dynamic type is T is the box of the T value it holds (so two interface
+// values of dynamic type T that hold equal values are equal). Emitted once per (type, function).
+func (fc *FnCtx) boxSurjective(box, unbox string, tag int) {
+	key := "ax:" + box
+	if fc.declared[key] {
+		return
+	}
+	fc.declared[key] = true
+	fc.declareFun("tagOf", []string{SInt}, SInt)
+	// closed formula: emitted even while a quantified contract expression is being translated
+	fc.emit(fmt.Sprintf("(assert (forall ((qx Int)) (! (=> (and (not (= qx 0)) (= (tagOf qx) %d)) (= (%s (%s qx)) qx)) :pattern ((%s qx)))))", tag, box, unbox, unbox))
 }
 
 func (fc *FnCtx) hasTag(v Term, t types.Type) Term {
